@@ -68,8 +68,11 @@ func runC10(c *core.Ctx) {
 				defer s.Stop()
 				ipn := 0
 				idx := make([]int, L)
-				for {
-					// sequence = sigma[fi], then sigma[idx[1..]]; evaluate every prefix length via one run
+				for pass := 0; ; pass++ {
+					// sequence = sigma[fi], then sigma[idx[1..]]; evaluate every prefix length via one run.
+					// Every sequence is run twice: source port varying per datagram, and one fixed source port
+					// (protocol state such as a TFTP upload in progress is keyed by address and port).
+					fixedPort := pass%2 == 1
 					ipn++
 					ip := fmt.Sprintf("10.%d.%d.%d", 100+ipn>>16, (ipn>>8)&255, ipn&255)
 					replies := map[string][]string{}
@@ -80,10 +83,14 @@ func runC10(c *core.Ctx) {
 							t = sigma[idx[k]]
 						}
 						names = append(names, t.name)
-						c10Send(s, svc, c10Sender{ip, 40000 + k}, t.b, replies)
+						port := 40000 + k
+						if fixedPort {
+							port = 40000
+						}
+						c10Send(s, svc, c10Sender{ip, port}, t.b, replies)
 						c.Count("transitions", 1)
 						if n := len(replies[ip]); n > c10Burst {
-							c.Violationf("C10:"+svc+":burst-exceeded", "%s: source %s received %d response datagrams for the request sequence [%s] (source port varied per datagram); the limiter's burst is %d", svc, ip, n, strings.Join(names, " ; "), c10Burst)
+							c.Violationf("C10:"+svc+":burst-exceeded", "%s: source %s received %d response datagrams for the request sequence [%s] (fixed source port: %v); the limiter's burst is %d", svc, ip, n, strings.Join(names, " ; "), fixedPort, c10Burst)
 							break
 						}
 					}
@@ -96,6 +103,9 @@ func runC10(c *core.Ctx) {
 					c.Class(fmt.Sprintf("%s replies=%d", svc, len(replies[ip])))
 					c.Outcome(svc, fmt.Sprint(len(replies[ip])), strings.Join(names[:2], ";"))
 					lab.ResetEvents()
+					if !fixedPort {
+						continue // same sequence again with a fixed source port
+					}
 					// next index vector over positions 1..L-1
 					k := L - 1
 					for k >= 1 {
